@@ -34,10 +34,16 @@ RenderValue(vs, ch) ==
     IF Len(vs) = 1 /\ ch.style # "brackets" THEN RenderScalar(vs[1], ch.style)
     ELSE "[" \o ch.ws \o JoinVals(vs, ch.style, ch.ws \o "," \o ch.ws) \o ch.ws \o "]"
 
+\* style "split": a key may be given several times in one operation, its values are appended in order --
+\* `k=a k=b' describes the same operation as `k=[a,b]'
+RECURSIVE RenderSplit(_, _, _)
+RenderSplit(k, vs, ch) ==
+    ch.gap \o k \o ch.ws \o "=" \o ch.ws \o RenderScalar(vs[1], "quoted") \o (IF Len(vs) = 1 THEN "" ELSE RenderSplit(k, Tail(vs), ch))
 RECURSIVE RenderParams(_, _), RenderPipeline(_, _), RenderNode(_, _), RenderSources(_, _)
 RenderParams(ps, ch) ==
     IF ps = <<>> THEN ""
-    ELSE ch.gap \o ps[1][1] \o ch.ws \o "=" \o ch.ws \o RenderValue(ps[1][2], ch) \o RenderParams(Tail(ps), ch)
+    ELSE (IF ch.style = "split" /\ Len(ps[1][2]) >= 2 THEN RenderSplit(ps[1][1], ps[1][2], ch)
+          ELSE ch.gap \o ps[1][1] \o ch.ws \o "=" \o ch.ws \o RenderValue(ps[1][2], ch)) \o RenderParams(Tail(ps), ch)
 RenderSources(ss, ch) ==
     IF Len(ss) = 1 THEN RenderPipeline(ss[1], ch)
     ELSE RenderPipeline(ss[1], ch) \o "," \o RenderSources(Tail(ss), ch)
